@@ -1,5 +1,4 @@
 /- Umbrella of the canonical-text tie (tools/canon.py): one module per item under Lemmas/Canon. -/
-import Qvnt.Lemmas.Canon.IntStruct
 import Qvnt.Lemmas.Canon.MacroStruct
 import Qvnt.Lemmas.Canon.MacroArgumentName
 import Qvnt.Lemmas.Canon.MacroNew
@@ -7,8 +6,4 @@ import Qvnt.Lemmas.Canon.MacroProcess
 import Qvnt.Lemmas.Canon.MacroProcessNested
 import Qvnt.Lemmas.Canon.ParseContext
 import Qvnt.Lemmas.Canon.ParseEvalExtended
-import Qvnt.Lemmas.Canon.SymStruct
-import Qvnt.Lemmas.Canon.SymNew
 import Qvnt.Lemmas.Canon.SymInit
-import Qvnt.Lemmas.Canon.SymGetClass
-import Qvnt.Lemmas.Canon.SymGetProbabilities
